@@ -278,6 +278,9 @@ FINDING_OF_DEV = {"DailyJan1Hole": "KF-C08-1", "PrevYearStale": "KF-C08-2", "Lat
 
 def run(prop, tier):
     kind = "fixed" if prop == "C08" else "variable"
+    # every second case goes through the gRPC front end (frontend.GRPCService, requests and responses passed through the
+    # protobuf wire format), the others through the msgpack-RPC DataService: the property does not depend on the transport
+    os.environ.setdefault("VERIF_FRONT", "mix")
     res = Result(prop, tier)
     rng = random.Random(vlib.seed() * 7919 + (8 if kind == "fixed" else 9))
     binary = vlib.build_harness()
